@@ -79,7 +79,7 @@ void time_advance_monitor(double)
     l += b;
   }
   emit("L%s", l.c_str());
-  if (energy_host) {
+  if (energy_host && opts.count("esample")) { // (reading the energy forces an update of the plugin: off by default)
     std::string en;
     for (auto& [n, h] : hosts) {
       snprintf(b, sizeof b, " %s=%a", n.c_str(), sg_host_get_consumed_energy(h));
@@ -99,7 +99,8 @@ void final_report()
 {
   if (energy_host)
     for (auto& [n, h] : hosts)
-      emit("S %ld %a energy host=%s joules=%a", SEQ++, now(), n.c_str(), sg_host_get_consumed_energy(h));
+      if (h->get_property("wattage_per_state") != nullptr)
+        emit("S %ld %a energy host=%s joules=%a", SEQ++, now(), n.c_str(), sg_host_get_consumed_energy(h));
   if (energy_link)
     for (auto& [n, l] : links)
       emit("S %ld %a link_energy link=%s joules=%a", SEQ++, now(), n.c_str(), sg_link_get_consumed_energy(l));
